@@ -640,3 +640,287 @@ Proof.
         destruct (holding (t_pc (clients s i))); [|reflexivity].
         assert (X : lock (sh s) = Some i) by (apply A; reflexivity). congruence.
 Qed.
+
+(* ---- no start-up exception ----------------------------------------------------------------- *)
+(* lines at which run()/prepare() unwind with an exception, and the two lines of the pinned run() *)
+Definition bad_pc (p : pc) : bool :=
+  match p with PRelExc _ | RRelExc _ | RTest | RJoin => true | _ => false end.
+
+Definition good_oracle (o : oracle) : Prop :=
+  (forall k, o_popen o k = true) /\ (forall k, o_conn o k <> CTimeout).
+
+Definition st_clean (x : sstatus) : Prop :=
+  match x with S71 (Some _) | SDone (Some _) => False | _ => True end.
+
+Definition Clean (s : state) : Prop :=
+  (forall i, on bad_pc (clients s i) = false) /\ (forall h, st_clean (starters s h)).
+
+Lemma sf_bad : start_free bad_pc. Proof. repeat split. Qed.
+
+Section Clean.
+Variable c : cfg.
+Variable o : oracle.
+Hypothesis Hf3 : fix_f3 c = true.
+Hypothesis Hgood : good_oracle o.
+
+Arguments advance : simpl never.
+
+Ltac break_match H :=
+  repeat match type of H with
+  | context [match ?x with _ => _ end] => destruct x eqn:?
+  | context [if ?x then _ else _] => destruct x eqn:?
+  end.
+
+Lemma cstep_clean s i a l p g' st' n' out :
+  Inv s -> Clean s -> t_script (clients s i) = a :: l -> t_pc (clients s i) = p ->
+  cstep c o i (sh s) (starters s) (nstarters s) p = Some (g', st', n', out) ->
+  Clean {| sh := g'; nclients := nclients s;
+           clients := upd (clients s) i (advance (clients s i) out);
+           nstarters := n'; starters := st' |}.
+Proof.
+  intros HI [HC HS] Escr Epc Hs. destruct Hgood as [Gp Gc].
+  pose proof (HC i) as Hb. unfold on in Hb. rewrite Escr, Epc in Hb.
+  pose proof (I_cl _ HI i) as Hi. unfold cl_ok, on, joining in Hi. rewrite Escr, Epc in Hi.
+  destruct p; simpl in Hs, Hb, Hi; try discriminate Hb;
+    unfold keep, do_popen, do_connect in Hs; rewrite ?Hf3, ?Gp in Hs;
+    try match goal with
+        | E : _ = RConnect |- _ => pose proof (Gc (attempts (sh s))); destruct (o_conn o (attempts (sh s))) eqn:Hoc; [| |congruence]
+        end;
+    break_match Hs; inversion Hs; subst g' st' n' out; clear Hs.
+  all: try solve [exfalso; destruct Hi as (A & B & C & D & E & F);
+                  destruct (D eq_refl) as (h' & H1 & H2); congruence].
+  all: split; simpl.
+  all: try solve [intros j; unfold upd; destruct (Nat.eqb_spec j i) as [->|Hne]; [|apply HC];
+                  rewrite ?advance_done, ?advance_answer, ?advance_raise;
+                  first [ rewrite (on_goto _ _ _ _ _ Escr); reflexivity | apply on_next, sf_bad ]].
+  all: try exact HS.
+  all: try solve [intros h0; unfold upd; destruct (Nat.eqb h0 _); [exact I|apply HS]].
+Qed.
+
+Lemma sstep_clean s h g' x' :
+  Clean s -> sstep o (sh s) (starters s h) = Some (g', x') ->
+  Clean {| sh := g'; nclients := nclients s; clients := clients s;
+           nstarters := nstarters s; starters := upd (starters s) h x' |}.
+Proof.
+  intros [HC HS] Hs. destruct Hgood as [Gp Gc]. split; simpl; [exact HC|].
+  intros h0. unfold upd. destruct (Nat.eqb_spec h0 h) as [->|Hne]; [|apply HS].
+  pose proof (HS h) as Hh. destruct (starters s h); simpl in Hs; try discriminate;
+    unfold do_popen, do_connect in Hs; rewrite ?Gp in Hs.
+  - injection Hs as _ <-. exact I.
+  - injection Hs as _ <-. exact I.
+  - injection Hs as _ <-. exact I.
+  - pose proof (Gc (attempts (sh s))). destruct (o_conn o (attempts (sh s)));
+      [injection Hs as _ <-; exact I | injection Hs as _ <-; exact I | congruence].
+  - injection Hs as _ <-. exact Hh.
+Qed.
+
+Lemma step_clean s t s' : Inv s -> Clean s -> step c o s t = Some s' -> Clean s'.
+Proof.
+  intros HI HC H. destruct t as [i|h]; simpl in H.
+  - destruct (t_script (clients s i)) as [|a l] eqn:Escr; [discriminate|].
+    destruct (cstep c o i (sh s) (starters s) (nstarters s) (t_pc (clients s i)))
+      as [[[[g' st'] n'] out]|] eqn:Ec; [|discriminate].
+    injection H as <-. eapply cstep_clean; eauto.
+  - destruct (sstep o (sh s) (starters s h)) as [[g' x']|] eqn:Es; [|discriminate].
+    injection H as <-. eapply sstep_clean; eauto.
+Qed.
+
+Lemma run_clean sched : forall s, Inv s -> Clean s -> Clean (run c o sched s).
+Proof.
+  unfold run. induction sched as [|t r IH]; intros s HI HC; simpl; [exact HC|].
+  unfold step_or_stay at 2. destruct (step c o s t) eqn:E.
+  - apply IH; [eapply step_inv; eauto | eapply step_clean; eauto].
+  - apply IH; assumption.
+Qed.
+
+Lemma init_clean scripts : Clean (init scripts).
+Proof.
+  split; simpl.
+  - intros i. apply init_on, sf_bad.
+  - intros h. exact I.
+Qed.
+
+Theorem no_startup_exception scripts sched : Clean (run c o sched (init scripts)).
+Proof. apply run_clean; [apply init_inv|apply init_clean]. Qed.
+
+End Clean.
+
+(* ---- step bound per operation ---------------------------------------------------------------- *)
+(* lines an operation may still execute (its own steps), by program counter *)
+Definition mu (p : pc) : nat :=
+  match p with
+  | PAcq => 10 | PAcqW => 9 | PTestH => 8 | PRet1 => 7 | PHas => 7 | PRet2 => 6 | PMk => 6
+  | PStart => 5 | PRel => 4 | PRelExc _ => 4
+  | CEntry => 24 | CTry => 23 | CGet => 22 | CExc => 21 | CRun => 20
+  | RAcq => 19 | RAcqW => 18 | RTest => 17 | RRead => 17 | RJoin => 16 | RTestL _ => 16
+  | RJoinL _ => 15 | RJoinW _ => 14 | RHas => 13 | RCallRun => 12 | RPopen => 11 | RConnect => 10
+  | RRel => 9 | RRelExc _ => 9 | CSend => 8 | CRecv => 7 | CIsOk => 6 | CRet => 5
+  | KTry => 7 | KGet => 6 | KExc => 5 | KPass => 4 | KSend => 5 | KClose => 4 | KDel => 3
+  end.
+
+Definition smu (x : sstatus) : nat :=
+  match x with SUnborn | SNew => 6 | S68 => 5 | S69 => 4 | SPopen => 3 | SConnect => 2
+             | S71 _ => 1 | SDone _ => 0 end.
+
+Definition no_retry (o : oracle) : Prop := forall k, o_conn o k <> CRetry.
+
+Lemma mu_bound p : mu p <= 24.
+Proof. destruct p; simpl; lia. Qed.
+
+Lemma cstep_mu c o i g st n p g' st' n' p' :
+  no_retry o -> cstep c o i g st n p = Some (g', st', n', Goto p') -> mu p' < mu p.
+Proof.
+  intros Hn H. destruct p; simpl in H; unfold keep, do_popen, do_connect in H;
+    try match goal with
+        | _ : context [o_conn o ?k] |- _ => pose proof (Hn k); destruct (o_conn o k) eqn:?; [|congruence|]
+        end;
+    repeat match type of H with
+    | context [match ?x with _ => _ end] => destruct x eqn:?
+    | context [if ?x then _ else _] => destruct x eqn:?
+    end; inversion H; subst; simpl; lia.
+Qed.
+
+(* every line a client executes either ends its current operation or brings it closer to the
+   end: an operation is at most 25 of its own lines (when no connect attempt is retried) *)
+Theorem op_progress c o s i s' :
+  no_retry o -> step c o s (Cl i) = Some s' ->
+  length (t_script (clients s' i)) < length (t_script (clients s i)) \/
+  (t_script (clients s' i) = t_script (clients s i) /\
+   mu (t_pc (clients s' i)) < mu (t_pc (clients s i))).
+Proof.
+  intros Hn H. simpl in H. destruct (t_script (clients s i)) as [|a l] eqn:Escr; [discriminate|].
+  destruct (cstep c o i (sh s) (starters s) (nstarters s) (t_pc (clients s i)))
+    as [[[[g' st'] n'] out]|] eqn:Ec; [|discriminate].
+  injection H as <-. simpl. rewrite upd_same.
+  destruct out as [p'| | |e]; unfold advance, next_op; simpl; rewrite ?Escr; simpl.
+  - right. split; [reflexivity|]. eapply cstep_mu; eauto.
+  - left. lia.
+  - left. lia.
+  - left. lia.
+Qed.
+
+(* the starter thread ends after at most 5 of its own lines *)
+Theorem starter_progress c o s h s' :
+  no_retry o -> step c o s (St h) = Some s' ->
+  smu (starters s' h) < smu (starters s h).
+Proof.
+  intros Hn H. simpl in H.
+  destruct (sstep o (sh s) (starters s h)) as [[g' x']|] eqn:Es; [|discriminate].
+  injection H as <-. simpl. rewrite upd_same.
+  destruct (starters s h); simpl in Es; try discriminate; unfold do_popen, do_connect in Es;
+    try (pose proof (Hn (attempts (sh s))); destruct (o_conn o (attempts (sh s))); [|congruence|]);
+    try destruct (o_popen o (popens (sh s))); injection Es as _ <-; simpl; lia.
+Qed.
+
+(* ---- close() then a call: exactly one new server ----------------------------------------------- *)
+(* one thread running alone: its steps as a function of (shared state, starter table, thread) *)
+Definition lstate := (shared * (nat -> sstatus) * nat * cthread)%type.
+
+Definition lstep (c : cfg) (o : oracle) (i : nat) (x : lstate) : lstate :=
+  let '(g, st, n, t) := x in
+  match t_script t with
+  | [] => x
+  | _ :: _ => match cstep c o i g st n (t_pc t) with
+              | Some (g', st', n', out) => (g', st', n', advance t out)
+              | None => x
+              end
+  end.
+
+Fixpoint liter (c : cfg) (o : oracle) (i : nat) (k : nat) (x : lstate) : lstate :=
+  match k with 0 => x | S k' => liter c o i k' (lstep c o i x) end.
+
+Definition lview (s : state) (i : nat) : lstate := (sh s, starters s, nstarters s, clients s i).
+
+Lemma lstep_view c o i s : lview (step_or_stay c o s (Cl i)) i = lstep c o i (lview s i).
+Proof.
+  unfold lview, lstep, step_or_stay, step.
+  destruct (t_script (clients s i)) as [|a l] eqn:E; [reflexivity|].
+  destruct (cstep c o i (sh s) (starters s) (nstarters s) (t_pc (clients s i)))
+    as [[[[g' st'] n'] out]|]; simpl; rewrite ?upd_same; reflexivity.
+Qed.
+
+Lemma solo_view c o i k : forall s, lview (run c o (repeat (Cl i) k) s) i = liter c o i k (lview s i).
+Proof.
+  induction k as [|k IH]; intros s; simpl; [reflexivity|].
+  unfold run in *. simpl. rewrite IH, lstep_view. reflexivity.
+Qed.
+
+Lemma liter_add c o i a b x : liter c o i (a + b) x = liter c o i b (liter c o i a x).
+Proof. revert x. induction a as [|a IH]; intros x; simpl; [reflexivity|apply IH]. Qed.
+
+(* From ANY state in which the session is up, nobody is inside prepare()/run() and no starter is
+   registered, a thread that runs close() and then a call - alone, 22 lines - ends the session,
+   launches exactly one new server and gets its reply from it. *)
+Theorem close_then_call c o s i rest k :
+  fix_f2 c = true -> fix_f3 c = true ->
+  t_script (clients s i) = Close :: Call :: rest -> t_pc (clients s i) = KTry ->
+  lock (sh s) = None -> handle (sh s) = None ->
+  conn (sh s) = Some k -> c_closed k = false ->
+  o_popen o (popens (sh s)) = true -> o_conn o (attempts (sh s)) = COk ->
+  let s' := run c o (repeat (Cl i) 22) s in
+  launches (sh s') = S (launches (sh s)) /\ epoch (sh s') = S (epoch (sh s)) /\
+  conn (sh s') = Some fresh_conn /\ lock (sh s') = None /\ handle (sh s') = None /\
+  t_script (clients s' i) = rest /\ t_exns (clients s' i) = t_exns (clients s i) /\
+  t_answers (clients s' i) = S (t_answers (clients s i)).
+Proof.
+  intros F2 F3 Escr Epc Hl Hh Hk Hc Hp Ho s'.
+  pose proof (solo_view c o i 22 s) as V. fold s' in V. clearbody s'.
+  destruct c as [f2 f3]. simpl in F2, F3. subst f2 f3.
+  unfold lview in V.
+  destruct (sh s) as [lk hd cn la po att co fa ep inf] eqn:Eg.
+  destruct (clients s i) as [scr p ex an] eqn:Et.
+  destruct k as [kc kg kp].
+  cbn [lock handle conn popens attempts launches epoch t_script t_pc t_exns t_answers c_closed] in *.
+  subst lk hd cn kc scr p.
+  change 22 with (15 + (1 + (1 + 5))) in V. rewrite !liter_add in V.
+  match type of V with _ = liter _ _ _ 5 (liter _ _ _ 1 (liter _ _ _ 1 ?x)) =>
+    remember x as x1 eqn:E1 end.
+  cbv -[o_popen o_conn] in E1. subst x1.
+  match type of V with _ = liter _ _ _ 5 (liter _ _ _ 1 ?x) => remember x as x2 eqn:E2 end.
+  cbv -[o_popen o_conn] in E2. rewrite Hp in E2. subst x2.
+  match type of V with _ = liter _ _ _ 5 ?x => remember x as x3 eqn:E3 end.
+  cbv -[o_popen o_conn] in E3. rewrite Ho in E3. subst x3.
+  match type of V with _ = ?x => remember x as x4 eqn:E4 end.
+  cbv -[o_popen o_conn] in E4. subst x4.
+  injection V as V1 V2 V3 V4. rewrite V1, V4. simpl. repeat split; reflexivity.
+Qed.
+
+(* ---- small corollaries stated in Props/C16.v -------------------------------------------------- *)
+Lemma exactly_one_once_connected s : Inv s ->
+  conn (sh s) <> None -> launches (sh s) = epoch (sh s) + failed (sh s) + 1.
+Proof.
+  intros HI H. destruct (launches_exact s HI) as [A B].
+  destruct (conn (sh s)); [simpl in *; lia|contradiction].
+Qed.
+
+Lemma sstep_lock o g x g' x' : sstep o g x = Some (g', x') -> lock g' = lock g.
+Proof.
+  destruct x; simpl; try discriminate; unfold do_popen, do_connect; intros H.
+  - injection H as <- _. reflexivity.
+  - injection H as <- _. reflexivity.
+  - destruct (o_popen o (popens g)); injection H as <- _; reflexivity.
+  - destruct (o_conn o (attempts g)); injection H as <- _; reflexivity.
+  - injection H as <- _. reflexivity.
+Qed.
+
+Lemma starter_never_locks c o s h s' : step c o s (St h) = Some s' -> lock (sh s') = lock (sh s).
+Proof.
+  intros H. simpl in H.
+  destruct (sstep o (sh s) (starters s h)) as [[g' x']|] eqn:E; [|discriminate].
+  injection H as <-. simpl. eapply sstep_lock; eauto.
+Qed.
+
+Lemma step_bound c o s :
+  no_retry o ->
+  (forall i s', step c o s (Cl i) = Some s' ->
+     length (t_script (clients s' i)) < length (t_script (clients s i)) \/
+     (t_script (clients s' i) = t_script (clients s i) /\
+      mu (t_pc (clients s' i)) < mu (t_pc (clients s i)) <= 24)) /\
+  (forall h s', step c o s (St h) = Some s' -> smu (starters s' h) < smu (starters s h) <= 6).
+Proof.
+  intros Hn. split.
+  - intros i s' H. destruct (op_progress c o s i s' Hn H) as [A|[A B]]; [left; exact A|right].
+    split; [exact A|split; [exact B|apply mu_bound]].
+  - intros h s' H. split; [eapply starter_progress; eauto|].
+    destruct (starters s h); simpl; lia.
+Qed.
